@@ -20,7 +20,7 @@ Not modelled: keep-alive and UDP/TCP liveness timers, SRTP/MIKEY, multicast list
 write errors (a failed write surfaces as the read error that follows it).
 -/
 namespace Rtsp.ClientSm
-open Rtsp.Facts.ClientSm (statusOK statusMovedPermanently statusUseProxy statusUnauthorized statusNotFound statusUnsupportedTransport)
+open Rtsp.Facts.ClientSm (statusOK statusMovedPermanently statusUseProxy statusUnauthorized statusNotFound statusUnsupportedTransport maxRedirects)
 
 inductive CState | initial | prePlay | play | preRecord | record
   deriving DecidableEq, Repr, Inhabited
@@ -123,7 +123,7 @@ inductive Val | resp (r : Resp) | err (e : Err) | nil
   deriving DecidableEq, Repr, Inhabited
 
 inductive AfterReset
-  | redirect (loc : LocK)         -- doDescribe: parse Location, doDescribe again
+  | redirect (loc : LocK) (n : Nat) -- doDescribe: parse Location, doDescribe again (n: redirects followed so far, this one included)
   | switchTcp (a : SetupArgs)     -- doSetup: server answered TCP to a UDP request: DESCRIBE, SETUP again
   deriving DecidableEq, Repr, Inhabited
 
@@ -132,7 +132,7 @@ inductive Fr
   | wait (m : Meth) (cseq : Nat) (tp : Nat) -- do → waitResponse (tp: transport code of a SETUP)
   | doOpt (m : Meth) (skip : Bool) (tp : Nat) -- do: the implicit doOptions is running, `m` is sent afterwards
   | optionsK                              -- doOptions after do
-  | describeK
+  | describeK (redirects : Nat)            -- doDescribeRedirect(u, redirects) after do
   | announceK
   | setupK (a : SetupArgs) (p : Proto)
   | playK | recordK | pauseK
@@ -145,6 +145,7 @@ inductive Out
   | sent (m : Meth) (cseq : Nat) (sess : Option Nat) (auth : Bool) (tp : Nat)
   | replied                               -- answered an OPTIONS of the server
   | dial
+  | hangup                                -- the client closed its connection
   deriving DecidableEq, Repr, Inhabited
 
 structure St where
@@ -237,7 +238,9 @@ def startDo (s : St) (m : Meth) (skip : Bool) (tp : Nat) (fs k : List Fr)
     else { s1 with stack := .wait m s1.cseq tp :: (fs ++ k) }
 
 /-- what `doClose` does to connection, reader and media (not the TEARDOWN) -/
-def closeConn (s : St) : St := { s with conn := false, reader := false, allow := false }
+def closeConn (s : St) : St :=
+  let s1 : St := { s with conn := false, reader := false, allow := false }
+  if s.conn then emit s1 .hangup else s1
 
 /-- `reset` after its doClose: forget the session -/
 def clearSession (s : St) : St :=
@@ -258,11 +261,11 @@ def runExit (s : St) (e : Res) : St :=
     else s2
   closeConn s3
 
-def describeStart (s : St) (fs k : List Fr) (retK : St → Val → St) : St :=
+def describeStart (s : St) (redirects : Nat) (fs k : List Fr) (retK : St → Val → St) : St :=
   if stateIn s preStates then
     match connOpen s with
     | none => retK s (.err .other)
-    | some s1 => startDo s1 .describe false 0 (.describeK :: fs) k (fun s e => retK s (.err e)) id
+    | some s1 => startDo s1 .describe false 0 (.describeK redirects :: fs) k (fun s e => retK s (.err e)) id
   else retK s (.err .invalidState)
 
 def setupStart (c : Cfg) (s : St) (a : SetupArgs) (k : List Fr) (retK : St → Val → St) : St :=
@@ -281,14 +284,14 @@ def setupStart (c : Cfg) (s : St) (a : SetupArgs) (k : List Fr) (retK : St → V
 def afterReset (s0 : St) (n : AfterReset) (k : List Fr) (retK : St → Val → St) : St :=
   let s := clearSession s0
   match n with
-  | .redirect loc =>
+  | .redirect loc n =>
     match loc with
     | .unparsable => retK s (.err .other)
     | .downgrade => retK s (.err .other)
-    | .dead => describeStart { s with dialOk := false } [] k retK
-    | _ => describeStart { s with dialOk := true } [] k retK
+    | .dead => describeStart { s with dialOk := false } n [] k retK
+    | _ => describeStart { s with dialOk := true } n [] k retK
   | .switchTcp a =>
-    describeStart { s with tr := some .tcp } [.redescK a] k retK
+    describeStart { s with tr := some .tcp } 0 [.redescK a] k retK
 
 def resetStart (c : Cfg) (s : St) (n : AfterReset) (k : List Fr) (retK : St → Val → St) : St :=
   if s.conn && s.baseUrl then
@@ -356,10 +359,11 @@ def setupResp (c : Cfg) (s : St) (a : SetupArgs) (p : Proto) (r : Resp) (k : Lis
   | .switchTcp => resetStart c { s with baseUrl := true } (.switchTcp a) k retK
 
 /-- doDescribe after `do` returned a response -/
-def describeResp (c : Cfg) (s : St) (r : Resp) (k : List Fr) (retK : St → Val → St) : St :=
+def describeResp (c : Cfg) (s : St) (redirects : Nat) (r : Resp) (k : List Fr) (retK : St → Val → St) : St :=
   if r.status != statusOK then
     if statusMovedPermanently ≤ r.status && r.status ≤ statusUseProxy && r.loc != .none && r.loc != .multi then
-      resetStart c s (.redirect (if r.loc == .downgrade && !c.secure then .good else r.loc)) k retK
+      if redirects ≥ maxRedirects then retK s (.err .other)
+      else resetStart c s (.redirect (if r.loc == .downgrade && !c.secure then .good else r.loc) (redirects + 1)) k retK
     else retK s (.err .badStatus)
   else if r.ct == .missing || r.ct == .dup then retK s (.err .contentTypeMissing)
   else if r.ct == .unsupported then retK s (.err .contentTypeUnsupported)
@@ -423,9 +427,9 @@ def frameRet (c : Cfg) (f : Fr) (k : List Fr) (retK : St → Val → St) (s : St
       if skip then retK s1 .nil
       else if s1.ctxDone then retK { s1 with mustClose := true } (.err .terminated)
       else { s1 with stack := .wait m s1.cseq tp :: k }
-  | .describeK =>
+  | .describeK n =>
     match v with
-    | .resp r => describeResp c s r k retK
+    | .resp r => describeResp c s n r k retK
     | _ => retK s v
   | .announceK =>
     match v with
@@ -476,7 +480,7 @@ def startApi (c : Cfg) (s0 : St) (a : Api) : St :=
       | none => retK s (.err .other)
       | some s1 => startDo s1 .options false 0 [.optionsK] k (fun s e => retK s (.err e)) id
     else retK s (.err .invalidState)
-  | .describe => describeStart s [] k retK
+  | .describe => describeStart s 0 [] k retK
   | .announce =>
     if s.cst == .initial then
       if c.proto == some .mcast then retK s (.err .other)
